@@ -11,3 +11,12 @@ def register(claim):
     claim("C05", "Coq proof (invariant by induction over operation lists, lookup lemmas) + vm_compute correspondence",
           "Invariant (pids strictly increasing, pid[k]>=k, <npid, aligned columns), exact-removal, value-preservation and never-reused theorems hold for every operation sequence (induction, no bound); the model is tied to state.py by replaying random and exhaustive short operation sequences and comparing the full state after every operation.",
           BASE + "item assignment length-preserving (hypothesis op_wf); values integer-coded.", "DESIGN.md section 6 C05")
+    claim("C09", "Coq proof (one-step preservation for arbitrary candidates, induction over steps) + vm_compute correspondence",
+          "The valid-region/sea-cell invariant, kill-iff-outside, land-cancel, inactive-unmoved and dead-stay-dead theorems hold for ANY candidate position (any field, draw, scheme, NaN) and any number of steps; the move logic is tied to tracker.py/ROMS.Grid by exact differential evaluation on generated coastlines and prescribed velocities, plus invariant checks on multi-step histories with diffusion.",
+          BASE + "released particles start in sea cells of the valid region.", "DESIGN.md section 6 C09")
+    claim("C15", "Coq proof (reflection lemma over Q for arbitrary displacement) + vm_compute correspondence",
+          "For all h>0, 0<=Z<=h and any displacement |d|<h the surface-then-bottom reflection stays in [0,h]; off = identity; tied to tracker.py by differential evaluation with injected generator, stub vertical velocity and variable bathymetry (model looks up the start cell itself).",
+          BASE + "tolerance 1e-9 on the depth comparison.", "DESIGN.md section 6 C15")
+    claim("C01", "Coq proof (refinement to Butcher-tableau step, order conditions, exactness laws) + vm_compute correspondence; convergence clause partial",
+          "EF/RK2/RK4 as coded equal the explicit Runge-Kutta step of their tableau (stage positions and fractional times) for every velocity oracle; tableaux satisfy the order conditions through 1/2/4; exact to order p on linear fields and as quadrature; same for ladim.analytical. Convergence for arbitrary smooth fields is not proved (stated partial). Tied to tracker.py/analytical.py by differential evaluation on polynomial fields incl. clipped stages, and end to end through the ROMS forcing.",
+          BASE + "tolerance 1e-11; Butcher's theorem not formalised.", "DESIGN.md section 6 C01")
